@@ -8,6 +8,7 @@ package props
 import (
 	"encoding/json"
 	"fmt"
+	"io/ioutil"
 	"os"
 	r "reflect"
 	"regexp"
@@ -26,19 +27,68 @@ import (
 func init() {
 	core.Register(&core.Check{ID: "C38", Level: "exploration", Workers: -1, Run: c38Run, Replay: c38Replay,
 		Prepare: func(c *core.Ctx) error {
-			for _, spec := range diffSpecs {
-				if spec.Classic != nil {
-					if _, _, _, err := spec.corpus(c); err != nil {
-						return err
-					}
+			for _, spec := range c38Specs() {
+				if _, _, _, err := spec.corpus(c38CorpusCtx(c, spec)); err != nil {
+					return err
 				}
 			}
 			return nil
 		}})
 }
 
+// c38Specs lists the corpora C38 runs: every registered twin-execution corpus that has a predicate for the classic
+// interpreter's documented subset (its own, or one of c38_subset.go), and C38's own corpus.
+func c38Specs() []*diffSpec {
+	var out []*diffSpec
+	for _, spec := range diffSpecs {
+		if spec.Classic != nil {
+			out = append(out, spec)
+		} else if pred := c38ExtraClassic[spec.ID]; pred != nil {
+			cp := *spec
+			cp.Classic = pred
+			out = append(out, &cp)
+		}
+	}
+	// order: C05 (the original corpus), C38's own corpus, then the borrowed ones — the framework keeps only the first
+	// 20 violations of a worker in full
+	var ordered []*diffSpec
+	for _, spec := range out {
+		if spec.ID == "C05" {
+			ordered = append(ordered, spec)
+		}
+	}
+	ordered = append(ordered, c38ResultsSpec)
+	for _, spec := range out {
+		if spec.ID != "C05" {
+			ordered = append(ordered, spec)
+		}
+	}
+	return ordered
+}
+
+// c38CorpusCtx: the corpora borrowed from C06, C07 and C08 are always their quick-tier corpora (their thorough tiers
+// multiply dimensions that only matter to the fast interpreter's specialised code, and cost a cold oracle build of
+// several minutes each); C05's and C38's own corpus follow the tier of the run.
+func c38CorpusCtx(c *core.Ctx, spec *diffSpec) *core.Ctx {
+	if c38ExtraClassic[spec.ID] != nil && c.Thorough() {
+		return c.WithTier("quick")
+	}
+	return c
+}
+
+func c38SpecByID(id string) *diffSpec {
+	for _, spec := range c38Specs() {
+		if spec.ID == id {
+			return spec
+		}
+	}
+	return nil
+}
+
 func c38NewClassic() *classic.Interp {
 	ir := classic.New()
+	// warnings ("too many return values" for return m[k], …) are not part of the compared result
+	ir.Stdout, ir.Stderr = ioutil.Discard, ioutil.Discard
 	names := make([]string, 0, len(h.Hooks))
 	for k := range h.Hooks {
 		names = append(names, k)
@@ -71,25 +121,23 @@ type c38Case struct {
 }
 
 func c38Run(c *core.Ctx) {
-	c.Rule("programs of the registered twin-execution corpora that lie in the classic interpreter's documented subset (per-corpus predicate: only default-typed int/float64/string/bool, slices, maps, plain structs, functions, closures, control flow, defer/recover; no typed constants arithmetic, interfaces, embedding, goroutines), each run on a fresh classic.Interp and compared with the cached compiled-Go result; " +
+	c.Rule("programs that lie in the classic interpreter's documented subset (only default-typed int/float64/string/bool, slices, maps, plain structs, functions, closures, control flow, defer/recover; no typed/untyped constant arithmetic, interfaces, methods, embedding, pointers, arrays, goroutines/channels, labels), each run on a fresh classic.Interp and compared with the cached compiled-Go result. " +
+		"Corpora: C05 control flow (its own predicate); the programs of the quick-tier C06 (calls/closures/escape/re-entrancy), C07 (defer/panic/recover call trees) and C08 (composites, append/copy, literals) corpora selected by a predicate on the type-checked AST (white list of statement forms and of every expression and declared type; unused prelude declarations ignored); " +
+		"C38's own corpus 'value-copy points at function boundaries vs deferred code': ret = kind {int,float64,string,bool,slice,map,struct,func} × storage class of the returned operand {local, parameter, field, slice element, map element, *p, package variable, captured variable} × mutator {deferred closure assigning / updating, defer set(&x,v), deferred function variable, two defers, defer in loop, nested defer, deferred closure calling recover()} × arity/position {1, first of 2, last of 2, same operand twice} × call context {assigned, argument, forwarded by return f(), called twice, through a function value, closure of the owner} × form {x, (x), id(x)} (quick: kind × store × mutator in full, the other dimensions with the plain closure mutator; thorough: full product); " +
+		"named = named results: {bare, return r, return const, return local, conditional bare} × deferred modification {none, update, set, two, observe, through pointer, with recover()} × result shapes × contexts; dargs = arguments and function value of a defer statement saved at the statement: kind × storage class × {closure parameter, declared function, two arguments, compiled hook, function variable, variadic} × {assign, update} and function value held in {local, field, element, package variable} reassigned afterwards; " +
+		"recov = a function with {0, 1, 2} × {unnamed, named} results recovers at call depth 1..6 from {panic(string/int/struct), nil map write, index out of range, division by zero, panic in a callee} through 9 handler shapes (incl. no recover, recover in a helper: panic escapes); cargs = arguments of ordinary calls are copies: kind × storage class × callee {assign, update, deferred assign, assign in a closure}; " +
 		"non-trivial = distinct (program, Go result) whose trace has at least two events")
-	c.Assume("the Go toolchain installed in the image is the reference for 'compiled Go'", "the subset predicates follow classic/README.md (documented limitations are excluded)")
+	c.Assume("the Go toolchain installed in the image is the reference for 'compiled Go'", "the subset predicates follow classic/README.md (documented limitations are excluded) and the positive list of the property statement; pointers, arrays and methods are left out of the predicate for foreign corpora (C38's own corpus uses &x / *p for two storage classes)")
 	n := 0
-	for _, spec := range diffSpecs {
-		if spec.Classic == nil {
-			continue
-		}
-		valid, _, want, err := spec.corpus(c)
+	for _, spec := range c38Specs() {
+		valid, _, want, err := spec.corpus(c38CorpusCtx(c, spec))
 		if err != nil {
 			panic(err)
 		}
+		// every worker decides the subset predicate only for its own share of the corpus; the counters are summed
 		sel := 0
 		for i := range valid {
 			p := &valid[i]
-			if !spec.Classic(p) {
-				continue
-			}
-			sel++
 			n++
 			if !c.Mine(n) {
 				continue
@@ -97,16 +145,22 @@ func c38Run(c *core.Ctx) {
 			if c.Expired() {
 				return
 			}
-			c38One(c, spec.ID, p, want[p.ID])
+			if !spec.Classic(p) {
+				continue
+			}
+			sel++
+			c38One(c, spec, p, want[p.ID])
 		}
-		c.Count("programs_in_subset_"+spec.ID, 0)
+		c.Count("programs_in_subset_"+spec.ID, sel)
+		c.Count("programs_in_corpus_"+spec.ID, 0)
 		if c.Shard == 0 {
-			c.Count("programs_in_subset_"+spec.ID, sel)
+			c.Count("programs_in_corpus_"+spec.ID, len(valid))
 		}
 	}
 }
 
-func c38One(c *core.Ctx, corpus string, p *oracle.Prog, want string) {
+func c38One(c *core.Ctx, spec *diffSpec, p *oracle.Prog, want string) {
+	corpus := spec.ID
 	c.Eval(1)
 	res := c38RunProg(p)
 	got := res.Out
@@ -133,6 +187,9 @@ func c38One(c *core.Ctx, corpus string, p *oracle.Prog, want string) {
 			line = line[:i]
 		}
 		sig := "C38|" + corpus + "|" + strings.TrimPrefix(line, "// ")
+		if c38OwnSig[corpus] != nil {
+			sig = c38OwnSig[corpus](p, want, got)
+		}
 		if c38LabelledJump.MatchString(p.Body) {
 			// the classic interpreter ignores the label of break/continue (always the innermost statement)
 			sig = "C38|labelled-break-or-continue"
@@ -148,20 +205,25 @@ func c38Replay(c *core.Ctx, raw json.RawMessage) {
 	if err := json.Unmarshal(raw, &cas); err != nil {
 		panic(err)
 	}
-	c38One(c, cas.Corpus, &cas.Prog, cas.Want)
+	spec := c38SpecByID(cas.Corpus)
+	if spec == nil {
+		panic("C38 replay: unknown corpus " + cas.Corpus)
+	}
+	c38One(c, spec, &cas.Prog, cas.Want)
 }
 
 // C38Probe lists the failing programs whose id starts with prefix (development aid).
 func C38Probe(prefix string, report func(id, line, want, got string)) {
 	c := core.NewProbeCtx("C38", "quick")
-	for _, spec := range diffSpecs {
-		if spec.Classic == nil {
+	for _, spec := range c38Specs() {
+		if !strings.HasPrefix(prefix, spec.ID+":") && strings.Contains(prefix, ":") {
 			continue
 		}
 		valid, _, want, err := spec.corpus(c)
 		if err != nil {
 			panic(err)
 		}
+		prefix := prefix[strings.Index(prefix, ":")+1:]
 		for i := range valid {
 			p := &valid[i]
 			if !spec.Classic(p) || !strings.HasPrefix(p.ID, prefix) {
@@ -177,4 +239,58 @@ func C38Probe(prefix string, report func(id, line, want, got string)) {
 			}
 		}
 	}
+}
+
+// C38ProbeSigs runs the selected programs of one corpus and reports every mismatch with its signature (development aid).
+func C38ProbeSigs(corpus string, report func(sig, id, src, want, got string)) (total int) {
+	c := core.NewProbeCtx("C38", os.Getenv("VERIF_TIER_PROBE"))
+	spec := c38SpecByID(corpus)
+	valid, _, want, err := spec.corpus(c)
+	if err != nil {
+		panic(err)
+	}
+	for i := range valid {
+		p := &valid[i]
+		if !spec.Classic(p) {
+			continue
+		}
+		total++
+		res := c38RunProg(p)
+		got := res.Out
+		if res.CompileErr != "" {
+			got = "ERROR: " + res.CompileErr
+		}
+		if got != want[p.ID] {
+			sig := "C38|" + corpus + "|" + c06Header(p)
+			if c38OwnSig[corpus] != nil {
+				sig = c38OwnSig[corpus](p, want[p.ID], got)
+			}
+			report(sig, p.ID, p.Source(), want[p.ID], got)
+		}
+	}
+	return
+}
+
+// C38ProbeWhy returns, for one corpus, how many programs are outside the subset per reason (development aid).
+func C38ProbeWhy(corpus string) map[string]int {
+	c := core.NewProbeCtx("C38", os.Getenv("VERIF_TIER_PROBE"))
+	var spec *diffSpec
+	for _, s := range diffSpecs {
+		if s.ID == corpus {
+			spec = s
+		}
+	}
+	valid, _, _, err := spec.corpus(c)
+	if err != nil {
+		panic(err)
+	}
+	m := map[string]int{}
+	for i := range valid {
+		w := c38WhyNot(&valid[i])
+		if len(w) > 60 {
+			w = w[:60]
+		}
+		m[w]++
+	}
+	return m
 }
